@@ -441,6 +441,8 @@ def rule_x3(F):
                         a0 = hir.peel_refs(c["args"][0])
                         if a0.get("k") == "lit" and a0.get("lk") == "str" and a0["v"] not in ("pkg.", "."):
                             vals.add(a0["v"])
+        if label == "get_tests" and not vals:
+            continue       # decided below by evaluating the discovery predicate with the prefix the other sites use
         sites[label] = sorted(vals)
         r.inst(label, {"site": label, "prefix": sorted(vals)})
         if not vals:
@@ -483,22 +485,42 @@ def rule_x3(F):
     r.inst("sorted", {"sort_stmt": sort_i})
     if not sort_i:
         r.bad(gb.path, "sorted", relfile(gb.file), gb.line, "the discovered test names are not sorted: the order of test runs would depend on HashMap iteration")
-    # discovery on the last segment, by prefix
-    cms = []
-    for p_ in F.paths():
-        if p_.startswith("codegen::testing::get_tests::{closure"):
-            cb = F.body(p_)
-            if cb is None or not cb.hir:
-                continue
-            cms += [c["m"] for c in hir.nodes(cb.hir["value"], "mcall")]
-            # ... or the predicate is a helper function the closure calls
-            for c in hir.nodes(cb.hir["value"], "call"):
-                hb = F.body(hir.call_def(c) or "")
-                if hb is not None and hb.hir and hb.file == gb.file:
-                    cms += [x["m"] for x in hir.nodes(hb.hir["value"], "mcall")]
-    r.inst("discovery predicate", {"methods": cms})
-    if "starts_with" not in cms or "rsplit_once" not in cms:
-        r.bad(gb.path, "predicate", relfile(gb.file), gb.line, "tests must be recognised by the prefix of the last path segment (found %s)" % cms)
+    # discovery on the last segment, by prefix: the predicate that get_tests filters the function names with is EVALUATED (vf/sx:
+    # str / Option methods on concrete strings, constants and helper functions followed) on names built with the prefix the
+    # other sites use
+    from .. import sx
+    pred = None
+    for f_ in hir.nodes_deep(F, gb.hir["value"], "mcall", depth=1):
+        if f_["m"] in ("filter", "filter_map") and f_["args"]:
+            a0 = hir.strip(f_["args"][0])
+            if a0.get("k") == "closure":
+                pred = {"params": a0["params"], "value": a0["body"]}
+                break
+            if a0.get("k") == "path" and F.has(hir.res_def(a0) or ""):
+                pred = F.body(hir.res_def(a0)).hir
+                break
+    pfx = prefix or "test#"
+    vectors = [("pkg." + pfx + "a", True), ("pkg.sub." + pfx + "b", True), ("pkg.a.b." + pfx + "c", True), ("pkg.main", False), ("pkg.sub.main", False),
+               ("pkg." + pfx + "x.helper", False), ("pkg.x" + pfx + "y", False)]
+    if pred is None:
+        r.bad(gb.path, "predicate", relfile(gb.file), gb.line, "get_tests does not select the test functions with a filter over the function names")
+    else:
+        got = []
+        try:
+            ex = sx.Exec(F)
+            for name, want in vectors:
+                res = {x if isinstance(x, bool) else ("Some" if sx.is_ctor(x) and x[1] == "Some" else "None" if x == "None" else "?") for x, _ in ex.paths(pred, {0: sx.Str(name)})}
+                res = {True if x == "Some" else False if x == "None" else x for x in res}
+                got.append((name, want, sorted(res, key=str)))
+        except (sx.TooManyPaths, sx.Unknown) as e_:
+            got = None
+            r.bad(gb.path, "predicate", relfile(gb.file), gb.line, "cannot evaluate the discovery predicate: %s" % e_)
+        if got is not None:
+            r.inst("discovery predicate", {"evaluated_on": [(n_, g_) for n_, _, g_ in got]})
+            wrong = [(n_, w_, g_) for n_, w_, g_ in got if g_ != [w_]]
+            if wrong:
+                r.bad(gb.path, "predicate", relfile(gb.file), gb.line,
+                      "tests must be recognised by the prefix %r of the LAST path segment: %s" % (pfx, "; ".join("%s -> %s (expected %s)" % (n_, g_, w_) for n_, w_, g_ in wrong[:3])))
     return r
 
 
@@ -618,11 +640,17 @@ def rule_x5(F):
         if p.startswith("codegen::testing::get_tests"):
             tb = F.body(p)
             if tb is not None and tb.hir:
-                for c in hir.nodes(tb.hir.get("value") or {}, "mcall"):
+                # (the stripping may sit in a private helper of the test module, and the prefix may be a constant)
+                for c in hir.nodes_deep(F, tb.hir.get("value") or {}, "mcall", depth=2):
                     if c["m"] in ("strip_prefix", "trim_start_matches") and c["args"]:
                         a0 = hir.peel_refs(c["args"][0])
                         if a0.get("k") == "lit" and a0.get("lk") == "str":
                             stripped.add(a0["v"])
+                        elif a0.get("k") == "path" and F.has(hir.res_def(a0) or ""):
+                            cb_ = F.body(hir.res_def(a0))
+                            v_ = hir.strip((cb_.hir or {}).get("value") or {}) if cb_ is not None and cb_.hir else {}
+                            if v_.get("k") == "lit" and v_.get("lk") == "str":
+                                stripped.add(v_["v"])
     for sources, line in looked:
         r.inst("lookup key in get_function", {"definitions_of_the_key": len(sources), "prefixes": sources, "stripped_by_get_tests": sorted(stripped)})
         if not sources or any(x is None for x in sources):
